@@ -33,6 +33,11 @@ UNKNOWN_MODULES = ["nosuch", "qartodx", "gliderz"]
 UNKNOWN_TESTS = ["no_such_test", "gross_range", "spike"]
 
 
+AWKWARD_FLOATS = [1e-05, 2.5e-07, 1e+16, 6.02e+23, 1e-10, -3e-06]
+AWKWARD_STRINGS = ["yes", "no", "on", "off", "y", "010", "1:30", "0x1F", "1_000", "~", "null", "2020-01-01", "1e3", ".5", "+12", "0o17",
+                   "true", "None", "1e-05", "12:30:00"]
+
+
 def params_for(rng, test):
     r = rng.random()
     if test in ("aggregate", "pressure_increasing_test"):
@@ -55,7 +60,16 @@ def params_for(rng, test):
             return None
         if r < 0.14:
             return {}
-        return table[test]
+        kw = dict(table[test])
+        q = rng.random()
+        scalars = [k for k, v in kw.items() if isinstance(v, (int, float)) and not isinstance(v, bool)]
+        if q < 0.3 and scalars:
+            # numbers whose text form is an exponent without a dot (json.dumps writes 1e-05), very small / very large
+            kw[rng.choice(scalars)] = rng.choice(AWKWARD_FLOATS)
+        if 0.2 < q < 0.5:
+            # a free-text keyword (Config keeps every configured keyword): scalars that YAML 1.1 and YAML 1.2 read differently
+            kw["comment"] = rng.choice(AWKWARD_STRINGS)
+        return kw
     return {"whatever": 1} if r < 0.5 else None
 
 
